@@ -539,6 +539,7 @@ fn run_case(case: &Case, obs: &mut Obs) -> Result<(), Failure> {
 }
 
 pub fn run(ctx: &mut Ctx) {
+    ctx.enable_crash_sentinel();
     ctx.assume("the store is filled through Store::insert with honest generated chain segments (ascending, so every segment is a legal new head range); the reference reads the same generated headers from a BTreeMap");
     ctx.assume("response bodies are compared after ExtendedHeader::decode (celestia-types decoder, trusted) with the stored header");
     ctx.assume("the handler is driven exactly like its #[cfg(test)] tests do: fresh handler, on_request_received, poll until the mock ResponseSender receives the answer; libp2p transport is out of scope");
